@@ -28,6 +28,8 @@ PropClauses(step, funs) ==
 \cup {<<step, "I3zero", fid>> : fid \in {f \in 1..Len(funs) : ZeroFun(funs, f) /\
                                   \E s \in 1..Len(funs[f].pts) : ~(VIsZero(funs[f].pts[s].g) /\ VIsZero(funs[f].pts[s].f))}}
 \cup {<<step, "I4", fid>> : fid \in {f \in 1..Len(funs) : ~I4(<<funs[f]>>)}}
+\cup {<<step, "I6-differentiable-sum-of-a-non-differentiable-term", fid>> : fid \in {f \in 1..Len(funs) :
+          ~funs[f].leaf /\ funs[f].diff /\ \E k \in 1..Len(NonZero(funs[f].w)) : ~funs[NonZero(funs[f].w)[k][1]].diff}}
 \* what the call returned must be what the tables say
 RetClause(step, c, ret, funs) ==
   LET P == funs[c.f].pts
